@@ -628,6 +628,42 @@ func ruleC08Facade(r *Run) {
 			r.Check(rule, fmt.Sprintf("%s:store Resp#%d", FuncName(f), i+1), w.InstrPos(st), ok, map[bool]string{true: "Resp = &sameContext.writer", false: "Resp set to something other than the context's own wrapper: status/commit tracking is bypassed"}[ok])
 		}
 	}
+	// (3b) a Context made by copying another one as a whole (var ctx = *c) inherits a Resp that points INTO the source:
+	// every path from the copy to a return must re-point it at the copy's own writer. The source of a Copy() goes back
+	// to the pool when its request ends; a copy that keeps its Resp writes into whatever request owns it then.
+	for _, f := range w.Funcs {
+		eachInstr(f, func(in ssa.Instruction) {
+			st, ok := in.(*ssa.Store)
+			if !ok {
+				return
+			}
+			al, isAl := st.Addr.(*ssa.Alloc)
+			if !isAl || !types.Identical(al.Type().(*types.Pointer).Elem(), ctxT) {
+				return
+			}
+			ld, isLd := st.Val.(*ssa.UnOp)
+			if !isLd || ld.Op != token.MUL || !isNamedPtr(ld.X.Type(), ctxT) {
+				return
+			}
+			okRe, _ := allPathsHit(f, in, func(x ssa.Instruction) bool {
+				s2, ok := x.(*ssa.Store)
+				if !ok {
+					return false
+				}
+				fa, isFA := s2.Addr.(*ssa.FieldAddr)
+				if !isFA || fieldVar(fa.X.Type(), fa.Field) != respF || fa.X != ssa.Value(al) {
+					return false
+				}
+				v := s2.Val
+				if mi, ok := v.(*ssa.MakeInterface); ok {
+					v = mi.X
+				}
+				wa, isWA := v.(*ssa.FieldAddr)
+				return isWA && fieldVar(wa.X.Type(), wa.Field) == writerCF && wa.X == ssa.Value(al)
+			})
+			r.Check(rule, FuncName(f)+":copied context re-points Resp", w.InstrPos(in), okRe, map[bool]string{true: "after the whole-struct copy every path sets Resp = &copy.writer", false: "a Context copied as a whole keeps the source's Resp (a pointer into the pooled source context): what the holder of the copy writes or sets lands in whichever request owns that context by then"}[okRe])
+		})
+	}
 	// (5) the raw body-write helpers of the context always reach the writer: "the first write commits the header
 	// with the status recorded so far" also holds for an EMPTY first write (net/http commits on Write(nil)); a helper
 	// that returns early for empty data leaves the header open, and a status set afterwards replaces the one that
@@ -1083,7 +1119,7 @@ func init() {
 	register(&property{
 		Meta: propertyMeta{
 			ID:          "C08",
-			Explanation: "The wrapper writer is a three-state machine (unset / status recorded / committed) checked per method for all operation sequences: (C08-LATCH) the underlying WriteHeader has exactly one call site, guarded by length == noWritten, whose path sets the latch and passes the recorded status after the 0->200 default; noWritten is stored only together with a new underlying writer; other length stores are 0 or length + n with n from the underlying Write. (C08-PRECOMMIT) every call on the underlying writer that can commit implicitly (Write, Flush, ...) is dominated by the explicit commit; Hijack marks the response written. (C08-RECORD) WriteHeader only records, and only positive statuses. (C08-END) every normal exit of the dispatcher and the recovered exit after the panic hook pass the commit. (C08-FACADE) the raw writer is reachable only through the wrapper: Resp always points to the same context's wrapper, adapters pass c.Resp, rux never calls RawWriter.",
+			Explanation: "The wrapper writer is a three-state machine (unset / status recorded / committed) checked per method for all operation sequences: (C08-LATCH) the underlying WriteHeader has exactly one call site, guarded by length == noWritten, whose path sets the latch and passes the recorded status after the 0->200 default; noWritten is stored only together with a new underlying writer; other length stores are 0 or length + n with n from the underlying Write. (C08-PRECOMMIT) every call on the underlying writer that can commit implicitly (Write, Flush, ...) is dominated by the explicit commit; Hijack marks the response written. (C08-RECORD) WriteHeader only records, and only positive statuses. (C08-END) every normal exit of the dispatcher and the recovered exit after the panic hook pass the commit. (C08-FACADE) the raw writer is reachable only through the wrapper: Resp always points to the same context's wrapper, adapters pass c.Resp, rux never calls RawWriter. Raw write helpers of Context (Write* taking bytes or a string) reach c.Resp.Write on every normal path. A function that installs a new underlying writer stores noWritten into length on every path. A Context copied as a whole stores Resp = &copy.writer on every path from the copy to a return.",
 			NotDecided:  []string{"body concatenation and the arithmetic of Length() beyond 'on every path from the underlying Write to a return, length += the count it returned'", "what a user-replaced c.Resp does", "which status wins when a helper is called after the commit (a run-time order)"},
 			Assumptions: []string{"net/http.ResponseWriter commits implicitly on Write/Flush (documented)", "handlers write through c.Resp or Context helpers"},
 		},
@@ -1097,7 +1133,7 @@ func init() {
 	register(&property{
 		Meta: propertyMeta{
 			ID:          "C09",
-			Explanation: "(C09-FRAME) the dispatcher installs a deferred recovering closure iff OnPanic != nil; with a hook no call that can run user code (QuickMatch, SetHandlers, Next, OnError) is reachable before the frame; in the closure recover() != nil guards Set(CTXRecoverResult, value) -> exactly one hook call (not in a loop, same context) -> no re-panic. (C08-END) the recovered exit commits the response after the hook. (C09-ONLY) no other recover in rux's request core and no deferred frame in the chain executor, so nothing resumes the chain. (C09-INCHAIN) every handler-shaped middleware of the module that calls Next() and recovers in a deferred closure parks the cursor on the recovered edge. (C03-POOL/C10-RESET) the context of a panicked dispatch is not recycled (Put not deferred) and every pooled context is fully re-initialised.",
+			Explanation: "(C09-FRAME) the dispatcher installs a deferred recovering closure iff OnPanic != nil; with a hook no call that can run user code (QuickMatch, SetHandlers, Next, OnError) is reachable before the frame; in the closure recover() != nil guards Set(CTXRecoverResult, value) -> exactly one hook call (not in a loop, same context) -> no re-panic. (C08-END) the recovered exit commits the response after the hook. (C09-ONLY) no other recover in rux's request core and no deferred frame in the chain executor, so nothing resumes the chain. (C09-INCHAIN) every handler-shaped middleware of the module that calls Next() and recovers in a deferred closure parks the cursor on the recovered edge. (C03-POOL/C10-RESET) the context of a panicked dispatch is not recycled (Put not deferred) and every pooled context is fully re-initialised. In the recovering closure no call other than the panic hook can run user code (dynamic function values, module functions that reach one).",
 			NotDecided:  []string{"what the hook writes", "behaviour of net/http when the panic propagates", "user handlers"},
 			Assumptions: []string{"Go's defer/recover semantics", "C10's total re-initialisation makes later requests independent of the panicked one"},
 		},
